@@ -387,6 +387,7 @@ func runOp3(c *hlib.Ctx, st *state3, m *model3d.Mesh, forced int) result3 {
 		}
 		emitArapOp(c, st, m)
 		emitArapLin(c, st, m, st.exact)
+		emitArapLoop(c, st, m)
 		if forceSeq || c.Rng.Intn(2) == 0 {
 			runArapSeq(c, st, m, vs, &r)
 			return r
